@@ -16,6 +16,10 @@ K (model vs implementation)
        `_HttpProxy.resume_stream`, `seek_to_token` + iteration, `seek_to_token` + `next_with_token` — vs `C11.resume`.
     D  `_encode_resume_token` / `_decode_resume_token` vs `C11.token_enc` / `C11.token_dec` (valid and malformed blobs);
        the extracted `should_continue` expression evaluated in Python vs `Gen.C11.shouldContinue` on a grid.
+    E  producers that READ THEIR TICK (`TickState`): a step may have a variant played when the tick of that `process()` call
+       carries metadata; init requests carry application metadata (injected into the /init body like
+       `write_request(extra_metadata=…)`).  The model (`C11.turnT`, tick plumbing extracted into Gen.C11) says which calls
+       get the init request's metadata: exactly the first call of the /init turn.
 O (the property on the implementation)
     1  the iterated data sequence is the same for every cap / codec / cache configuration (and ends the same way);
     2  resuming at ANY token (per-batch tokens from `next_with_token`, per-turn tokens cut from capped responses and
@@ -61,6 +65,11 @@ OBLIGATIONS = [
     "VgiVerif.C11.C11_progress",
     "VgiVerif.C11.C11_ran_bounds",
     "VgiVerif.C11.C11_turn_count",
+    "VgiVerif.C11.tick_shape",
+    "VgiVerif.C11.C11_tick_only_first",
+    "VgiVerif.C11.C11_resume_reactive",
+    "VgiVerif.C11.C11_iterate_reactive",
+    "VgiVerif.C11.C11_chunking_reactive",
     "VgiVerif.C11.C11_resume_token_rt",
     "VgiVerif.C11.C11_resume_token_encode_total",
 ]
@@ -75,7 +84,8 @@ TRUSTED = [
 PARTIAL = ["byte-level Arrow serialisation and the codecs live in pyarrow; the model takes their sizes as inputs"]
 RULE = (
     "random producers (0-8 steps; rows 1-1500; 0-2 logs before / after the batch; endings emit / finish / emit+finish / "
-    "raise / nothing; header on/off; 0-2 init logs) x caps {None, 1, exact cumulative sizes -1/0/+1 (straddling), a "
+    "raise / nothing; header on/off; 0-2 init logs; half of them READ THEIR TICK: per-position alternative steps played when "
+    "the tick carries the application key app.hint / any metadata, with init requests carrying application metadata) x caps {None, 1, exact cumulative sizes -1/0/+1 (straddling), a "
     "random mid value, huge} x codecs {identity, zstd, gzip} x cache {warm 4096, cold 0}; resume at every token on a "
     "second app instance; a case = (producer, configuration[, token index, resume mode]); non-trivial when the "
     "producer emits at least two batches; distinct by canonical JSON"
@@ -99,6 +109,107 @@ MANIFEST = {
 
 KEY = b"k" * 32
 EOS = 8
+HINT = "app.hint"
+
+
+# ------------------------------------------------------------------------------------------ producers that read their tick
+
+from dataclasses import dataclass  # noqa: E402
+from typing import Protocol  # noqa: E402
+
+from vgi_rpc.rpc import AnnotatedBatch, CallContext, OutputCollector, Stream, StreamState  # noqa: E402
+
+
+@dataclass
+class TickState(StreamState):
+    """svcgen.ScriptState plus: a step may have a "hinted" variant, played when the tick this process() call receives
+    carries metadata the producer looks for (`sense` = "app": the application key `app.hint`; "any": any metadata)."""
+
+    prog: str
+    sense: str = ""
+    i: int = 0
+    tag: str = ""
+
+    def process(self, input: AnnotatedBatch, out: OutputCollector, ctx: CallContext) -> None:
+        from vgi_rpc.log import Level
+
+        steps = json.loads(self.prog)
+        k = self.i
+        self.i = k + 1
+        md = input.custom_metadata
+        seen = False
+        if self.sense == "app":
+            seen = md is not None and md.get(HINT.encode()) is not None
+        elif self.sense == "any":
+            seen = md is not None and len(md) > 0
+        svcgen.EVENTS.append(("process", self.tag, k, seen))
+        step = steps[k] if k < len(steps) else {"logs": [], "act": "finish"}
+        if seen and "hinted" in step:
+            step = step["hinted"]
+        for lg in step.get("logs", []):
+            out.client_log(Level(lg["level"]), lg["text"], **lg.get("extra", {}))
+        act = step["act"]
+        if act == "finish":
+            for lg in step.get("post", []):
+                out.client_log(Level(lg["level"]), lg["text"], **lg.get("extra", {}))
+            out.finish()
+        elif act == "nothing":
+            return
+        elif "emit" in act or "emit_finish" in act:
+            b = act.get("emit") or act.get("emit_finish")
+            out.emit_pydict({"x": [b["id"]] * b.get("rows", 1)}, metadata=b.get("meta") or None)
+            for lg in step.get("post", []):
+                out.client_log(Level(lg["level"]), lg["text"], **lg.get("extra", {}))
+            if "emit_finish" in act:
+                out.finish()
+        elif "raise" in act:
+            raise svcgen.make_exc(act["raise"])
+
+
+def _p(self, a: int) -> Stream[TickState]: ...
+def _ph(self, a: int) -> Stream[TickState, svcgen.Hdr]: ...
+
+
+def build(m: dict[str, Any]) -> tuple[type, Any]:
+    """Protocol + implementation for ONE generated producer (like svcgen.build, with TickState as the state)."""
+    from vgi_rpc.log import Level
+
+    name = m["name"]
+    hdr = bool(m.get("header"))
+
+    def impl(self, a: int, ctx: CallContext, _m=m, _hdr=hdr):  # annotations set below
+        for lg in _m.get("init_logs", []):
+            ctx.client_log(Level(lg["level"]), lg["text"], **lg.get("extra", {}))
+        st = TickState(prog=json.dumps(_m["steps"]), sense=_m.get("sense") or "", i=0, tag=_m["name"])
+        kw: dict[str, Any] = {"output_schema": svcgen.OUT_SCHEMA, "state": st}
+        if _hdr:
+            kw["header"] = svcgen.Hdr(h=_m.get("hdr", 0))
+        return Stream(**kw)
+
+    impl.__name__ = name
+    impl.__annotations__ = {"a": int, "ctx": CallContext, "return": Stream[TickState, svcgen.Hdr] if hdr else Stream[TickState]}
+    P = type("GenProto", (Protocol,), {"__module__": __name__, name: svcgen._clone(_ph if hdr else _p, name)})
+    Impl = type("GenImpl", (), {"__module__": __name__, name: impl})
+    return P, Impl()
+
+
+def senses_init(m: dict[str, Any]) -> bool:
+    """Does the producer tell the init request's tick from the empty one?"""
+    if m.get("sense") == "any":
+        return True             # the init request always carries metadata (method name, request version)
+    return m.get("sense") == "app" and HINT in (m.get("init_md") or {})
+
+
+def run_steps(m: dict[str, Any]) -> list[dict[str, Any]]:
+    """The script the property expects the client to see: exactly the stream's first process() gets the init request's
+    metadata, every other one the empty tick — wherever the turn boundaries fall."""
+    out = []
+    for k, st in enumerate(m["steps"]):
+        if k == 0 and senses_init(m) and "hinted" in st:
+            out.append(st["hinted"])
+        else:
+            out.append({kk: v for kk, v in st.items() if kk != "hinted"})
+    return out
 
 
 # ------------------------------------------------------------------------------------------ recording client
@@ -107,7 +218,8 @@ EOS = 8
 class Rec:
     """Wraps `_SyncTestClient`: forces the response codec, keeps every raw response."""
 
-    def __init__(self, inner: Any, codec: str | None) -> None:
+    def __init__(self, inner: Any, codec: str | None, init_md: dict[str, str] | None = None) -> None:
+        self.init_md = init_md
         self.inner = inner
         self.prefix = inner.prefix
         self._default_headers = inner._default_headers
@@ -120,9 +232,29 @@ class Rec:
         merged = {**self._default_headers, **headers}
         merged["Accept-Encoding"] = self.codec or "identity"
         path = urlparse(url).path
+        if self.init_md and path.endswith("/init"):
+            content, merged = self._with_app_metadata(content, merged)
         r = self.inner._client.simulate_post(path, body=content, headers=merged)
         self.log.append({"path": path, "status": r.status_code, "body": r.content, "headers": {k.lower(): v for k, v in r.headers.items()}})
         return _SyncTestResponse(r.status_code, r.content, headers=dict(r.headers))
+
+    def _with_app_metadata(self, content: bytes, headers: dict[str, str]) -> tuple[bytes, dict[str, str]]:
+        """Re-frame the init request with application metadata on its batch (what `write_request(extra_metadata=…)` or a
+        relay forwarding `vgi.cache.*` validators produces)."""
+        from vgi_rpc._codec import Encoding, decompress
+
+        h = dict(headers)
+        enc = next((h.pop(k) for k in list(h) if k.lower() == "content-encoding"), None)
+        if enc:
+            content = decompress(Encoding(enc.strip().lower()), content)
+        rd = ipc.open_stream(pa.BufferReader(content))
+        b, md = rd.read_next_batch_with_custom_metadata()
+        mdd = {k.encode(): v.encode() for k, v in (self.init_md or {}).items()}
+        mdd.update(dict(md) if md is not None else {})          # framework keys win, as in `_write_request`
+        sink = pa.BufferOutputStream()
+        with ipc.new_stream(sink, rd.schema) as wr:
+            wr.write_batch(b, custom_metadata=pa.KeyValueMetadata(mdd))
+        return sink.getvalue().to_pybytes(), h
 
     def get(self, url: str, *, headers: dict[str, str] | None = None) -> Any:
         return self.inner.get(url, headers=headers)
@@ -138,10 +270,11 @@ class Worker:
         from vgi_rpc.http._testing import make_sync_client
         from vgi_rpc.rpc import RpcServer
 
-        self.P, self.impl = svcgen.build(desc)
+        m = desc["methods"][0]
+        self.P, self.impl = build(m)
         self.server = RpcServer(self.P, self.impl)
         self.cap, self.codec, self.cache = cap, codec, cache
-        self.rec = Rec(make_sync_client(self.server, token_key=KEY, max_response_bytes=cap, call_state_cache_entries=cache), codec)
+        self.rec = Rec(make_sync_client(self.server, token_key=KEY, max_response_bytes=cap, call_state_cache_entries=cache), codec, m.get("init_md"))
         self.cur: list[Any] = []
 
     def connect(self) -> Any:
@@ -328,8 +461,30 @@ def gen_producer(rng: Any) -> dict[str, Any]:
             act = {"emit": b}
         emits = isinstance(act, dict) and ("emit" in act or "emit_finish" in act)
         steps.append({"logs": c01.gen_logs(rng, 2), "act": act, "post": c01.gen_logs(rng, 1) if emits or act == "finish" else []})
-    return {"name": "p", "kind": "producer", "header": rng.random() < 0.3, "hdr": rng.randrange(100),
-            "init_logs": c01.gen_logs(rng, 2), "init": "ok", "steps": steps}
+    m = {"name": "p", "kind": "producer", "header": rng.random() < 0.3, "hdr": rng.randrange(100),
+         "init_logs": c01.gen_logs(rng, 2), "init": "ok", "steps": steps}
+    # half of the producers read their tick: at some positions they play another step when the tick carries metadata
+    if steps and rng.random() < 0.5:
+        m["sense"] = rng.choice(["app", "app", "any"])
+        m["init_md"] = rng.choice([{HINT: "3"}, {HINT: "3", "vgi.cache.if_none_match": "abc"}, {"other.key": "v"}, None])
+        if m["sense"] == "any" and rng.random() < 0.5:
+            m["init_md"] = None
+        for k, st in enumerate(steps):
+            if k <= 1 or rng.random() < 0.6:
+                st["hinted"] = hinted_variant(rng, st)
+    return m
+
+
+def hinted_variant(rng: Any, st: dict[str, Any]) -> dict[str, Any]:
+    """What the producer does at this position when its tick carries the metadata it looks for: the same batch from
+    another offset (id + 500), or — like a cache revalidation hit — nothing more (finish)."""
+    act = st["act"]
+    if isinstance(act, dict) and ("emit" in act or "emit_finish" in act) and rng.random() < 0.85:
+        key = "emit" if "emit" in act else "emit_finish"
+        b = dict(act[key])
+        b["id"] = b["id"] + 500
+        return {"logs": list(st.get("logs", [])), "act": {key: b}, "post": list(st.get("post", []))}
+    return {"logs": [], "act": "finish", "post": []}
 
 
 def corpus() -> list[dict[str, Any]]:
@@ -349,6 +504,15 @@ def corpus() -> list[dict[str, Any]]:
         {"name": "p", "kind": "producer", "header": False, "init_logs": [L("only")], "init": "ok", "steps": []},
         {"name": "p", "kind": "producer", "header": False, "init_logs": [], "init": "ok",
          "steps": [E({"id": k, "rows": 1}) for k in range(1, 9)]},
+        # a producer that honours a first-tick hint (the init request carries application metadata): every position would
+        # react to a hinted tick, so the sequence shows which process() calls received one — small batches, so a cap lets
+        # several calls share the /init turn
+        {"name": "p", "kind": "producer", "header": False, "init_logs": [], "init": "ok", "sense": "app", "init_md": {HINT: "3"},
+         "steps": [dict(E({"id": k, "rows": 1}), hinted=E({"id": 500 + k, "rows": 1})) for k in range(1, 7)]},
+        # ... and one that reacts to ANY tick metadata (the plain client's init request already carries framework keys)
+        {"name": "p", "kind": "producer", "header": True, "hdr": 1, "init_logs": [L("h")], "init": "ok", "sense": "any",
+         "steps": [dict(E({"id": k, "rows": 2}), hinted=(E({"id": 500 + k, "rows": 2}) if k != 3 else {"logs": [], "act": "finish", "post": []}))
+                   for k in range(1, 6)]},
         # batches larger than the codecs' internal buffers (the flush points of zstd / gzip fall inside a turn)
         {"name": "p", "kind": "producer", "header": False, "init_logs": [L("big")], "init": "ok",
          "steps": [E({"id": 1, "rows": 20000}), E({"id": 2, "rows": 9000}), E({"id": 3, "rows": 20000}), E({"id": 4, "rows": 1})]},
@@ -375,7 +539,7 @@ def ends_stream(s: dict[str, Any]) -> bool:
 
 def data_ids(m: dict[str, Any]) -> list[int]:
     out = []
-    for s in m["steps"]:
+    for s in run_steps(m):
         act = s["act"]
         if isinstance(act, dict) and ("emit" in act or "emit_finish" in act):
             out.append((act.get("emit") or act.get("emit_finish"))["id"])
@@ -384,11 +548,23 @@ def data_ids(m: dict[str, Any]) -> list[int]:
     return out
 
 
+def model_steps(m: dict[str, Any]) -> list[dict[str, Any]]:
+    """Reactive script for the model: the step played on the empty tick and (when the producer can tell the init tick
+    apart) the one played on a tick carrying the init request's metadata."""
+    out = []
+    for st in m["steps"]:
+        d = c01.dstep({k: v for k, v in st.items() if k != "hinted"})
+        if "hinted" in st and senses_init(m):
+            d["hinted"] = c01.dstep(st["hinted"])
+        out.append(d)
+    return out
+
+
 def model_args(m: dict[str, Any], ref: dict[str, Any], cap0: int | None, cap: int | None) -> dict[str, Any]:
     hdr = bool(m.get("header"))
     return {"cap0": cap0, "cap": cap, "pre": ref["pre"], "sentinel": 0,
             "init_logs": [] if hdr else [c01.dlog(x) for x in m["init_logs"]], "init_sizes": [] if hdr else ref["init_sizes"],
-            "steps": [c01.dstep(s) for s in m["steps"]], "sizes": ref["sizes"]}
+            "steps": model_steps(m), "sizes": ref["sizes"]}
 
 
 def model_obs(m: dict[str, Any], o: dict[str, Any]) -> dict[str, Any]:
@@ -431,8 +607,8 @@ def reference(ctx: Any, m: dict[str, Any], desc: dict[str, Any]) -> dict[str, An
         if v["pre"] != pre or v["framing"] != EOS:
             ctx.mismatch(case, {"pre": pre, "eos": EOS}, {"pre": v["pre"], "framing": v["framing"]}, "reference run: stream framing")
             return None
-        if k < len(m["steps"]):
-            want = step_kinds(m["steps"][k])
+        if k < len(run_steps(m)):
+            want = step_kinds(run_steps(m)[k])
             if [it[0] for it in items] != want:
                 ctx.mismatch(case, want, [it[0] for it in items], f"reference run: batches of step {k} (one step per response without a cap)")
                 return None
@@ -442,11 +618,11 @@ def reference(ctx: Any, m: dict[str, Any], desc: dict[str, Any]) -> dict[str, An
             ctx.mismatch(case, [], [it[0] for it in items], "reference run: output past the end of the script")
             return None
     # steps never reached (after a terminal step) get no sizes: the model never runs them either
-    while len(sizes) < len(m["steps"]):
-        sizes.append([0] * len(step_kinds(m["steps"][len(sizes)])))
+    while len(sizes) < len(run_steps(m)):
+        sizes.append([0] * len(step_kinds(run_steps(m)[len(sizes)])))
     # sizes must be a function of the batch's content (the model's `sz : Item → Nat`)
     table: dict[str, int] = {}
-    for s, zs in zip(m["steps"], sizes):
+    for s, zs in zip(run_steps(m), sizes):
         act = s["act"]
         failing = act == "nothing" or (isinstance(act, dict) and "raise" in act)
         it_keys = ["log:" + json.dumps(lg, sort_keys=True) for lg in s.get("logs", [])]
@@ -502,7 +678,7 @@ def check_config(ctx: Any, m: dict[str, Any], desc: dict[str, Any], ref: dict[st
         w.close()
     case = {"producer": m, "config": w.label()}
     ctx.case(case, nontrivial=len(data_ids(m)) >= 2,
-             tags=(f"cap:{'none' if cap is None else ('1' if cap == 1 else ('huge' if cap >= 10**9 else 'mid'))}", f"codec:{codec}",
+             tags=(f"tick:{m.get('sense') or 'ignored'}{'+md' if m.get('init_md') else ''}", f"cap:{'none' if cap is None else ('1' if cap == 1 else ('huge' if cap >= 10**9 else 'mid'))}", f"codec:{codec}",
                    f"cache:{'cold' if cache == 0 else 'warm'}", f"steps:{min(len(m['steps']), 6)}"))
     views = [turn_view(b, hdr, i == 0) for i, b in enumerate(bodies)]
     # O1: same data sequence, same ending as the reference configuration
@@ -510,7 +686,7 @@ def check_config(ctx: Any, m: dict[str, Any], desc: dict[str, Any], ref: dict[st
     got = c01.obs_of(evs)
     if got["datas"] != want["datas"] or got["rest"] != want["rest"]:
         part = "datas" if got["datas"] != want["datas"] else "ending"
-        ctx.fail(case, f"C11:sequence-differs:{part}:{'capped' if cap is not None else 'nocap'}:{codec}",
+        ctx.fail(case, f"C11:sequence-differs:{part}:{'capped' if cap is not None else 'nocap'}:{codec}{':reads-tick' if senses_init(m) else ''}",
                  f"iterated {part} differ from the reference run: {json.dumps(got)[:300]} vs {json.dumps(want)[:300]}")
     # K: model prediction of every response from the reference sizes
     mod = None
@@ -552,8 +728,8 @@ def check_config(ctx: Any, m: dict[str, Any], desc: dict[str, Any], ref: dict[st
         rest = body_items[n_init:] if i == 0 else body_items
         j = 0
         last_bytes = 0
-        while j < len(rest) and pos < len(m["steps"]):
-            kinds = step_kinds(m["steps"][pos])
+        while j < len(rest) and pos < len(run_steps(m)):
+            kinds = step_kinds(run_steps(m)[pos])
             grp = rest[j:j + len(kinds)]
             if [g[0] for g in grp] != kinds:
                 break
@@ -565,7 +741,7 @@ def check_config(ctx: Any, m: dict[str, Any], desc: dict[str, Any], ref: dict[st
         if j != len(rest):
             ctx.mismatch(case, "responses are whole steps of the script in order", [it[0] for it in items], f"response {i}: cannot be cut into steps at {pos}")
             return None
-        if not rest and pos < len(m["steps"]) and not step_kinds(m["steps"][pos]):
+        if not rest and pos < len(run_steps(m)) and not step_kinds(run_steps(m)[pos]):
             pos += 1                               # a silent finish
         told0 = v["pre"] + sum(it[1] for it in body_items[:n_init] if i == 0)
         sentinel = toks[0][1] if toks else 0
@@ -675,7 +851,7 @@ def check_producer(ctx: Any, m: dict[str, Any], n_caps: int, n_resume: int) -> N
         # a finishing step hands out no token: the last batch of an emit+finish stream has token None
         points: list[tuple[int, bytes, str]] = [(k + 1, t, "next_with_token@" + wA.label()) for k, t in enumerate(toks) if t is not None]
         for k, t in enumerate(toks):
-            step = m["steps"][k]
+            step = run_steps(m)[k]
             if (t is None) != ends_stream(step):
                 ctx.mismatch(caseA, "token iff the step does not finish", (k, t is None), "which batches carry a resume token")
         # per-turn tokens of capped runs
